@@ -339,6 +339,8 @@ static int ex_region(char *loc, int *beg, int *end)
 		*beg = naddr++ ? end0 - 1 : *end - 1;
 		if (!naddr++)
 			*beg = *end - 1;
+		if (naddr > 2 && end0 > *end)	/* first address after the second */
+			return 1;
 		while (*loc && *loc != ';' && *loc != ',')
 			loc++;
 		if (!*loc)
